@@ -8,6 +8,16 @@ to ClientTicket.decrypt, and the connection the client asks rmc.connect for (or 
 plan; (b) oracle — the property itself on the real code: a protocol-following script yields exactly one accepted
 secure connection whose server-side pid, handler-observed pid and client-side pid are the issued pid, at the right
 address, with request_ticket iff needed; every failure script yields an exception and no accepted connection.
+
+Sessions: the property quantifies over every login, not over the first login of every client object, so SEQUENCES of
+logins through one BackEndClient (one connection to the authentication server) and one Settings object are explored as
+well: every ordered pair of step kinds (user / user with extra data / user with a source key / guest via login_guest /
+each family of failure) in every version band, and longer random sessions — different accounts, the same password under
+another pid, a changed password, re-logins, failed attempts before and after good ones, one after the other, with the
+earlier secure connections still open, or all in flight at once, through one or two BackEndClients sharing the Settings
+object. Every step is compared with the Lean `Backend.session` (the client object threaded through the logins; proved
+history independent) and judged by the same property oracle as a single login: it must behave exactly like that login
+through a fresh client.
 """
 import itertools, multiprocessing, os, struct, sys
 from concurrent.futures import ThreadPoolExecutor
@@ -102,8 +112,164 @@ def canon_model(line):
     return calls, key, out
 
 
+def judge(c, o):
+    """the property on the real code for one login `c` (a single run or one step of a session) observed as `o`"""
+    import backend_sim as B
+    kind = c["kind"]
+    why = None
+    if kind in ("matrix", "loss"):
+        exp_addr = (B.AUTH_HOST, B.AUTH_PORT) if c["placeholder"] else (B.SECURE_HOST, B.SECURE_PORT)
+        sid = 2 if c["placeholder"] else 1
+        if o["error"] is not None: why = "login through a protocol-following server failed: %s" % o["error"]
+        elif len(o["accepts"]) != 1: why = "expected exactly one accepted secure connection, saw %r" % (o["accepts"],)
+        elif o["accepts"][0][2] != c["pid"]: why = "secure server authenticated pid %r, issued %r" % (o["accepts"][0][2], c["pid"])
+        elif o["handler_pids"] != [c["pid"]] or o["probe"] != c["pid"]: why = "secure server's handler observed pid %r, issued %r" % (o["handler_pids"], c["pid"])
+        elif o["client_pid"] != c["pid"]: why = "client-side pid() is %r, issued %r" % (o["client_pid"], c["pid"])
+        elif tuple(o["accepts"][0][0]) != exp_addr or o["accepts"][0][1] != sid: why = "connected to %r stream %r, expected %r stream %r" % (o["accepts"][0][0], o["accepts"][0][1], exp_addr, sid)
+        elif any(x.startswith("requestTicket") for x in o["calls"]) != (not c["first_for_secure"]): why = "request_ticket issued=%r but first ticket for secure server=%r" % (o["calls"], c["first_for_secure"])
+        elif not c["first_for_secure"] and "requestTicket %d %d" % (c["pid"], B.SECURE_PID) not in o["calls"]: why = "request_ticket called with %r" % (o["calls"],)
+    else:
+        if o["error"] is None or o["accepts"] or o["handler_pids"]:
+            why = "failure script '%s' still produced a connection: error=%r accepts=%r" % (kind, o["error"], o["accepts"])
+    return why
+
+
 FAILURES = ["wrong-password", "no-password", "first-error-result", "first-rmc-error", "second-error-result", "second-rmc-error",
             "garbled-ticket", "garbled-second", "stale", "wrong-server-key", "wrong-source", "bad-source-key-hex"]
+
+
+# ---------------------------------------------------------------------------------------------------------------
+# sessions: sequences of logins through one BackEndClient / one Settings object
+
+OK_KINDS = ["user", "user-extra", "user-src", "guest"]
+FAIL_FAMILIES = {"wrong-password": ["wrong-password"], "no-password": ["no-password"],
+                 "first-error": ["first-error-result", "first-rmc-error"],
+                 "second-error": ["second-error-result", "second-rmc-error", "garbled-second"],
+                 "bad-ticket": ["garbled-ticket", "stale", "wrong-server-key", "wrong-source"],
+                 "bad-source-key-hex": ["bad-source-key-hex"]}
+STEP_KINDS = OK_KINDS + list(FAIL_FAMILIES)
+GUEST_PID = 100
+
+
+def reads_source_key(version, extra):
+    return (version >= 40400) or (version >= 40000 and extra)
+
+
+def make_step(rng, sess, idx, kind, prev, relation=None):
+    """one login of a session: `kind` in STEP_KINDS; `relation` to the previous step's account: None = another account,
+    'same-password' = another pid and user with the same password, 'password-changed' = the same user and pid whose password is
+    now another one, 'again' = the same account once more"""
+    import backend_sim as B
+    version = sess["version"]
+    uid = sess["seed"] * 16 + idx
+    pid = (1000 + uid) if sess["pid_size"] == 4 else ((1 << 40) + uid)
+    st = dict(username="user%d" % uid, password="pw%d" % uid, server_password="pw%d" % uid, pid=pid, extra=False,
+              first_for_secure=rng.random() < 0.5, placeholder=rng.random() < 0.5, session_key=rng.randbytes(sess["key_size"]),
+              source_key=None, source_key_text="", cid=rng.randrange(3), client=rng.randrange(sess.get("nclients", 1)))
+    if prev is not None and not prev.get("guest") and relation == "same-password":
+        st["password"] = st["server_password"] = prev["server_password"]
+    elif prev is not None and not prev.get("guest") and relation in ("password-changed", "again"):
+        st["username"], st["pid"] = prev["username"], prev["pid"]
+        if relation == "again": st["password"] = st["server_password"] = prev["server_password"]
+    fault = None
+    if kind in FAIL_FAMILIES:
+        fault = rng.choice(FAIL_FAMILIES[kind])
+        st["extra"] = rng.random() < 0.5
+        if fault == "bad-source-key-hex" and version < 40000: fault = kind = "wrong-password"       # no such field in that band
+    if kind == "user-extra": st["extra"] = True
+    elif kind == "user-src":
+        st["extra"] = True if version < 40400 else rng.random() < 0.5
+        if reads_source_key(version, st["extra"]):
+            st["source_key"] = rng.randbytes(16); st["source_key_text"] = st["source_key"].hex()
+            if rng.random() < 0.5: st["password"] = None
+    elif kind == "guest":
+        st.update(guest=True, username="guest", password=B.GUEST_PASSWORD, server_password=B.GUEST_PASSWORD, pid=GUEST_PID)
+    if fault == "wrong-password": st["password"] = st["server_password"] + "x"
+    elif fault == "no-password": st["password"] = None
+    elif fault == "bad-source-key-hex":
+        st["extra"] = True if version < 40400 else st["extra"]
+        st["source_key_text"] = rng.choice(["zz", "abc", "0g", "123"])
+    elif fault is not None:
+        st["fault"] = fault
+        if fault in ("second-error-result", "second-rmc-error", "garbled-second"): st["first_for_secure"] = False
+    st["kind"] = "matrix" if fault is None else "fail:" + fault
+    st["step_kind"] = kind
+    return st
+
+
+def make_session(rng, seed, version, kinds, mode="seq", nclients=1, relations=None, transport=None, loss=False):
+    sess = dict(version=version, client_version=3 + seed % 5, kd=rng.choice([0, 1]), key_size=rng.choice([16, 32]), ticket_version=rng.choice([0, 1]),
+                pid_size=rng.choice([4, 8]), transport=transport or rng.choice(["v0", "v1", "lite"]), seed=seed, mode=mode, nclients=nclients, steps=[])
+    if loss: sess["loss"] = True
+    prev = None
+    for idx, kind in enumerate(kinds):
+        if mode == "conc" and kind == "guest" and any(x.get("guest") for x in sess["steps"]): kind = "user"     # accounts are distinct when all are in flight
+        rel = None if mode == "conc" else (relations[idx] if relations else rng.choice([None, None, "same-password", "password-changed", "again"]))
+        prev = make_step(rng, sess, idx, kind, prev, rel)
+        sess["steps"].append(prev)
+    return sess
+
+
+def session_worker(sess):
+    import backend_sim
+    try:
+        return backend_sim.run_session(sess)
+    except BaseException as e:
+        return {"crash": repr(e)}
+
+
+def session_line(sess, out):
+    import backend_sim as B
+    parts = ["session %d %d %d %d %d %s %d" % (sess["version"], sess["client_version"], sess["kd"], sess["key_size"], sess["pid_size"], B.AUTH_HOST, B.AUTH_PORT)]
+    for k in range(len(sess["steps"])):
+        c = B.step_case(sess, k)
+        tickets = out["steps"][k].get("tickets")
+        if tickets is None: return None
+        first, second = script_tokens(c, tuple(bytes.fromhex(t) for t in tickets))
+        if c.get("guest"): args = "guest"
+        else:
+            pw = "none" if c.get("password") is None else (c["password"].encode().hex() or "-")
+            args = "%s %s %d" % (c["username"], pw, 1 if c["extra"] else 0)
+        parts.append("%s %s %s" % (args, first, second))
+    return " ;; ".join(parts)
+
+
+def describe_step(c):
+    who = "login_guest()" if c.get("guest") else "login(%r, password=%r%s)" % (c["username"], c.get("password"), ", auth_info=<AuthenticationInfo>" if c["extra"] else "")
+    return "%s [account pid %d, %s%s%s]" % (who, c["pid"], c["step_kind"], ", source key" if c.get("source_key") else "", ", server script: " + c["kind"][5:] if c["kind"].startswith("fail:") else "")
+
+
+def _jsonable_session(sess):
+    d = {k: v for k, v in sess.items() if k != "steps"}
+    d["steps"] = [_jsonable(st) for st in sess["steps"]]
+    return d
+
+
+def _unjson_session(d):
+    for st in d["steps"]:
+        for k in ("session_key", "source_key"):
+            if isinstance(st.get(k), str): st[k] = bytes.fromhex(st[k])
+    return d
+
+
+def build_sessions(rng, quick, first_seed):
+    sessions = []
+    seed = first_seed
+    # every ordered pair of step kinds in every band, one BackEndClient, one login after the other
+    for version, a, b in itertools.product(BANDS, STEP_KINDS, STEP_KINDS):
+        for _ in range(1 if quick else 3):
+            seed += 1
+            sessions.append(make_session(rng, seed, version, [a, b]))
+    # longer sessions: 3..5 steps, the three schedules, one or two BackEndClients on the one Settings object
+    for n in range(150 if quick else 1200):
+        seed += 1
+        version = rng.choice(BANDS + [0, 39999, 40399, 40401])
+        mode = rng.choice(["seq", "seq", "hold", "conc"])
+        kinds = [rng.choice(OK_KINDS + OK_KINDS + list(FAIL_FAMILIES)) for _ in range(rng.randint(3, 5))]
+        transport = rng.choice(["v0", "v1", "lite"])
+        sessions.append(make_session(rng, seed, version, kinds, mode=mode, nclients=rng.choice([1, 1, 2]), transport=transport,
+                                     loss=(mode == "seq" and transport != "lite" and rng.random() < 0.15)))
+    return sessions
 
 
 def run(ctx):
@@ -112,7 +278,9 @@ def run(ctx):
     drv = ctx.driver()
     ctx.rule = ("one case = one end-to-end login in the deterministic simulation (real backend.connect/login, real generated "
                 "Authentication(NX)Server scripted per case, real secure rmc.serve with a key); the 1152-point configuration matrix is exhaustive, "
-                "failure scripts (%d kinds) and first-copy datagram loss run on sub-matrices; each is compared with the Lean plan and judged by the property oracle" % len(FAILURES))
+                "failure scripts (%d kinds) and first-copy datagram loss run on sub-matrices; sessions = 2..5 logins through ONE BackEndClient and Settings object "
+                "(all ordered pairs of %d step kinds per band + random longer ones; sequential / earlier connections held / concurrent; 1-2 clients), one case per login; "
+                "each login is compared with the Lean plan (session: the k-th plan of Backend.session) and judged by the property oracle" % (len(FAILURES), len(STEP_KINDS)))
     cases = []
     i = 0
     for version, extra, kd, key_size, tv, pid_size, ffs, placeholder, transport in itertools.product(
@@ -155,13 +323,23 @@ def run(ctx):
         c["loss"] = True; c["kind"] = "loss"
         cases.append(c)
 
+    sessions = build_sessions(rng, quick, i)
     with multiprocessing.get_context("fork").Pool(min(16, os.cpu_count() or 4)) as pool:
+        pending = pool.map_async(session_worker, sessions, chunksize=4)
         observations = pool.map(worker, cases, chunksize=8)
+        session_outs = pending.get()
     crashes = [(c, o) for c, o in zip(cases, observations) if "crash" in o]
     if crashes:
         ctx.corr_break("simulation-crash", "the simulation harness crashed on %d cases: %s" % (len(crashes), crashes[0][1]["crash"]), {"case": _jsonable(crashes[0][0])})
         return
+    crashes = [(x, o) for x, o in zip(sessions, session_outs) if "crash" in o]
+    if crashes:
+        ctx.corr_break("simulation-crash", "the session harness crashed on %d sessions: %s" % (len(crashes), crashes[0][1]["crash"]), {"session": _jsonable_session(crashes[0][0])})
+        return
     lines = [plan_line(c, tuple(bytes.fromhex(t) for t in o["tickets"])) for c, o in zip(cases, observations)]
+    session_lines = [session_line(x, o) for x, o in zip(sessions, session_outs)]
+    n_single = len(lines)
+    lines = lines + [l if l is not None else "session-not-run" for l in session_lines]
     # the Lean side does 65000+ MD5 per old-style derivation: split the batch over a few driver processes
     nchunk = 12
     chunks = [lines[k::nchunk] for k in range(nchunk)]
@@ -171,6 +349,8 @@ def run(ctx):
     for k, oc in enumerate(outs_chunks):
         outs[k::nchunk] = oc
 
+    session_models = outs[n_single:]
+    outs = outs[:n_single]; lines = lines[:n_single]
     diffs, fails = [], []
     for c, o, line, model in zip(cases, observations, lines, outs):
         kind = c["kind"]
@@ -181,26 +361,59 @@ def run(ctx):
                  sample={"case": {k: (v.hex() if isinstance(v, bytes) else v) for k, v in c.items() if k not in ("session_key",)}, "model": model[:200], "observed": list(oc)} if ctx.evaluations % 331 == 0 else None)
         if mc != oc:
             diffs.append((c, o, model, oc))
-        # ---- the property on the real code
-        why = None
-        if kind in ("matrix", "loss"):
-            import backend_sim as B
-            exp_addr = (B.AUTH_HOST, B.AUTH_PORT) if c["placeholder"] else (B.SECURE_HOST, B.SECURE_PORT)
-            sid = 2 if c["placeholder"] else 1
-            if o["error"] is not None: why = "login through a protocol-following server failed: %s" % o["error"]
-            elif len(o["accepts"]) != 1: why = "expected exactly one accepted secure connection, saw %r" % (o["accepts"],)
-            elif o["accepts"][0][2] != c["pid"]: why = "secure server authenticated pid %r, issued %r" % (o["accepts"][0][2], c["pid"])
-            elif o["handler_pids"] != [c["pid"]] or o["probe"] != c["pid"]: why = "secure server's handler observed pid %r, issued %r" % (o["handler_pids"], c["pid"])
-            elif o["client_pid"] != c["pid"]: why = "client-side pid() is %r, issued %r" % (o["client_pid"], c["pid"])
-            elif tuple(o["accepts"][0][0]) != exp_addr or o["accepts"][0][1] != sid: why = "connected to %r stream %r, expected %r stream %r" % (o["accepts"][0][0], o["accepts"][0][1], exp_addr, sid)
-            elif any(x.startswith("requestTicket") for x in o["calls"]) != (not c["first_for_secure"]): why = "request_ticket issued=%r but first ticket for secure server=%r" % (o["calls"], c["first_for_secure"])
-            elif not c["first_for_secure"] and "requestTicket %d %d" % (c["pid"], B.SECURE_PID) not in o["calls"]: why = "request_ticket called with %r" % (o["calls"],)
-        else:
-            if o["error"] is None or o["accepts"] or o["handler_pids"]:
-                why = "failure script '%s' still produced a connection: error=%r accepts=%r" % (kind, o["error"], o["accepts"])
+        why = judge(c, o)      # ---- the property on the real code
         if why:
             fails.append((c, o, why))
-    ctx.traces_validated = len(cases)
+    # ---- sessions: every step against the model's session and against the property
+    import backend_sim as B
+    sdiffs, sfails = [], []
+    for x, o, model in zip(sessions, session_outs, session_models):
+        plans = model.split(" ;; ") if model not in ("bad-op", "") else []
+        n = len(x["steps"])
+        kinds = [st["step_kind"] for st in x["steps"]]
+        whole = None
+        if o["error"] is not None: whole = "the session as a whole ended with %s" % o["error"]
+        elif any(o["stray"][f] for f in ("calls", "accepts", "attempts", "keys", "handler_pids")):
+            whole = "activity that belongs to no login of the session: %r" % ({f: o["stray"][f] for f in ("calls", "accepts", "attempts", "keys", "handler_pids") if o["stray"][f]},)
+        if whole: sfails.append((x, o, None, whole))
+        for k in range(n):
+            c = B.step_case(x, k)
+            so = o["steps"][k]
+            mc = canon_model(plans[k]) if k < len(plans) and len(plans) == n else None
+            oc = canon_obs(so)
+            ctx.case(key=("session", x["seed"], k), nontrivial=True,
+                     tag="session:%s:%s%s:%s" % (x["mode"], (kinds[k - 1] + ">") if k else "", kinds[k], (mc[2].split(" ")[0] if mc else "bad-op")),
+                     sample={"session": _jsonable_session(x), "step": k, "model": (plans[k][:200] if k < len(plans) else model[:200]), "observed": list(oc)} if ctx.evaluations % 397 == 0 else None)
+            if mc != oc: sdiffs.append((x, k, model, oc))
+            why = judge(c, so)
+            if why: sfails.append((x, o, k, why))
+    ctx.extra["sessions"] = len(sessions)
+    ctx.extra["session_logins"] = sum(len(x["steps"]) for x in sessions)
+    ctx.extra["session_modes"] = {m: sum(1 for x in sessions if x["mode"] == m) for m in ("seq", "hold", "conc")}
+    ctx.extra["session_correspondence_diffs"] = len(sdiffs)
+    ctx.extra["session_oracle_failures"] = len(sfails)
+    # report the shortest failing sessions first, each with the verdict of the same login through a fresh client
+    sfails.sort(key=lambda f: (len(f[0]["steps"]), f[2] if f[2] is not None else -1))
+    for x, o, k, why in sfails[:8]:
+        kinds = [st["step_kind"] for st in x["steps"]]
+        if k is None:
+            key = "backend-session:%s:v%d:%s" % (x["mode"], x["version"], ">".join(kinds))
+            text = "session of %d logins through one BackEndClient (%s): %s" % (len(kinds), x["mode"], why)
+        else:
+            c = B.step_case(x, k)
+            alone = dict(x, steps=[dict(x["steps"][k], client=0)], mode="seq", nclients=1)
+            ao = session_worker(alone)
+            alone_why = ("crash " + ao["crash"]) if "crash" in ao else (ao["error"] or judge(c, ao["steps"][0]))
+            key = "backend-session:%s:v%d:%s:step%d" % (x["mode"], x["version"], ">".join(kinds[:k + 1]), k)
+            before = "; ".join("#%d %s -> %s" % (j, describe_step(B.step_case(x, j)), o["steps"][j]["error"] or "connected") for j in range(len(kinds)) if j != k and (j < k or x["mode"] == "conc"))
+            text = ("login #%d of a session through one BackEndClient/Settings object (schedule '%s', nex.version %d, key derivation %d, %s): %s -- %s. %s: %s. "
+                    "The same login alone through a fresh BackEndClient: %s") % (
+                k, x["mode"], x["version"], x["kd"], x["transport"], describe_step(c), why,
+                "Other logins in flight" if x["mode"] == "conc" else "Earlier logins through the same client", before or "none",
+                "behaves as the property demands" if alone_why is None else alone_why)
+        ctx.violation(key, text, {"session": _jsonable_session(x), "step": k, "observed": {"steps": [_jsonable(so) for so in o["steps"]], "stray": o["stray"], "error": o["error"]},
+                                  "how": "harness/backend_sim.run_session(session) (./check C17 --replay <this file>)"})
+    ctx.traces_validated = len(cases) + sum(len(x["steps"]) for x in sessions)
     ctx.exhaustive = True
     ctx.extra["matrix_configurations"] = n_matrix
     ctx.extra["failure_script_runs"] = sum(1 for c in cases if c["kind"].startswith("fail"))
@@ -210,6 +423,10 @@ def run(ctx):
     for c, o, why in fails[:25]:
         key = "backend:%s:v%d:extra=%d:ffs=%d:placeholder=%d" % (c["kind"], c["version"], c["extra"], c["first_for_secure"], c["placeholder"])
         ctx.violation(key, why, {"case": _jsonable(c), "observed": _jsonable(o), "how": "harness/backend_sim.run_case(case)"})
+    if sdiffs and not ctx.violations and not ctx.known_hits:
+        x, k, model, oc = sdiffs[0]
+        ctx.corr_break("backend-session-correspondence", "real BackEndClient logins in sequence and Lean Backend.session disagree on %d of %d session steps" % (len(sdiffs), sum(len(x["steps"]) for x in sessions)),
+                       {"session": _jsonable_session(x), "step": k, "model": model, "observed": list(oc), "theorems_no_longer_tied": ["Nx.C17.login_history_independent", "Nx.C17.session_step_connect", "Nx.C17.login_leaves_client"]})
     if diffs and not ctx.violations and not ctx.known_hits:
         c, o, model, oc = diffs[0]
         ctx.corr_break("backend-plan-correspondence", "real BackEndClient.login and Lean plan disagree on %d of %d runs" % (len(diffs), len(cases)),
@@ -219,6 +436,12 @@ def run(ctx):
 def replay(ctx, path):
     import json, backend_sim
     r = json.load(open(path))
+    if "session" in r:
+        out = backend_sim.run_session(_unjson_session(r["session"]))
+        for k, so in enumerate(out["steps"]):
+            print("login #%d:" % k, {f: so[f] for f in ("calls", "keys", "attempts", "accepts", "handler_pids", "client_pid", "error")})
+        print("stray:", out["stray"], "error:", out["error"])
+        return 0
     c = r["case"]
     for k in ("session_key", "source_key"):
         if isinstance(c.get(k), str): c[k] = bytes.fromhex(c[k])
